@@ -442,14 +442,17 @@ def step (s : St) (t : Tid) (c : Choice) : St := stepAt s t c (s.thr t).pc
 def evict (s : St) (ns : List Name) : St :=
   { s with map := fun n => if ns.contains n then none else s.map n }
 
-/-- initial states: `n` workers with arbitrary programs, nothing cached, nothing locked -/
+/-- initial states: `n` workers with arbitrary programs for transactions `< nTx`, nothing cached, nothing locked -/
 structure Init (s : St) : Prop where
   map : ∀ n, s.map n = none
   mgr : s.mgr = none
   nObj : s.nObj = 0
-  txs : ∀ T, (s.txs T).written = [] ∧ (s.txs T).mu = none ∧ (s.txs T).failed = false
-  thrW : ∀ i, (s.thr (.w i)).pc = .idle ∧ (s.thr (.w i)).defers = [] ∧ (i ≥ s.n → (s.thr (.w i)).todo = [])
-  thrC : ∀ T, (s.thr (.c T)).tx = T ∧ (s.thr (.c T)).pc = .cWait ∧ (s.thr (.c T)).defers = []
+  objs : ∀ o, s.objs o = {}
+  txs : ∀ T, (s.txs T).written = [] ∧ (s.txs T).mu = none ∧ (s.txs T).failed = false ∧ (s.txs T).pend = none
+  thrW : ∀ i, (s.thr (.w i)).pc = .idle ∧ (s.thr (.w i)).defers = [] ∧ (s.thr (.w i)).remaining = [] ∧
+    (s.n ≤ i → (s.thr (.w i)).todo = []) ∧ (i < s.n → (s.thr (.w i)).tx < s.nTx)
+  thrC : ∀ T, (s.thr (.c T)).tx = T ∧ (s.thr (.c T)).pc = .cWait ∧ (s.thr (.c T)).defers = [] ∧
+    (s.thr (.c T)).remaining = []
   dbw : s.dbw = none
 
 inductive Reachable (s0 : St) : St → Prop where
